@@ -8,6 +8,8 @@ import E2P.Model.Proto
 import E2P.Model.Compare
 import E2P.Model.NumParse
 import E2P.Spec.CompareSpec
+import E2P.Model.DateFns
+import E2P.Spec.DateSpec
 open E2P
 
 def optB : Option Bool → String
@@ -30,6 +32,44 @@ def handleCmp (args : List String) : String :=
     | _, _ => "bad-op"
   | _ => "bad-op"
 
+def optV : Option Val → String
+  | some v => " ".intercalate (encVal v) | none => "-"
+
+def strOf : Val → Option (List Char) | .str s => some s | _ => none
+def intOf : Val → Option Int | .int z => some z | _ => none
+
+/-- date helpers: `dt <fn> args…` -/
+def handleDate (args : List String) : String :=
+  match args with
+  | fn :: rest =>
+    match decAll rest with
+    | none => "bad-op"
+    | some vs =>
+      match fn, vs with
+      | "date", [.int y, .int m, .int d] =>
+        let model := dateFn y m d
+        let spec := match specDate y m d with
+          | some n => optV (some (.dt n 0))
+          | none => "-"
+        s!"{encRes model} | {spec} | "
+      | "year", [v] => s!"{encRes (yearFn v)} | - | "
+      | "month", [v] => s!"{encRes (monthFn v)} | - | "
+      | "day", [v] => s!"{encRes (dayFn v)} | - | "
+      | "edate", [a, b] => s!"{encRes (edateFn a b)} | - | "
+      | "eomonth", [a, b] => s!"{encRes (eomonthFn a b)} | - | "
+      | "datedif", [a, b, .str m] => s!"{encRes (datedifFn a b m)} | - | "
+      | "netdays", [a, b, h] =>
+        let spec := match a, b with
+          | .dt ns _, .dt ne _ => optV (some (.int (specNetworkdays (holidayOrdinals h) ns ne)))
+          | _, _ => "-"
+        s!"{encRes (networkDaysFn a b h)} | {spec} | "
+      | "ordinal", [.int y, .int m, .int d] => s!"{encRes (.ok (.int (ordinal y m d)))} | - | "
+      | "fromordinal", [.int n] =>
+        let t := ofOrdinal n
+        s!"{encRes (.ok (.list [.int t.y, .int t.m, .int t.d, .int (weekday n), .int (daysInMonth t.y t.m)]))} | - | "
+      | _, _ => "bad-op"
+  | _ => "bad-op"
+
 def handle (line : String) : String :=
   match tokens line with
   | "echo" :: rest =>
@@ -37,6 +77,7 @@ def handle (line : String) : String :=
     | some vs => " ".intercalate (vs.map fun v => " ".intercalate (encVal v))
     | none => "bad-op"
   | "cmp" :: rest => handleCmp rest
+  | "dt" :: rest => handleDate rest
   | _ => "bad-op"
 
 partial def loop (h : IO.FS.Stream) (out : IO.FS.Stream) : IO Unit := do
